@@ -10,6 +10,8 @@ package c14
 
 import (
 	"fmt"
+	"runtime"
+	"sync"
 	"testing"
 	"time"
 
@@ -19,6 +21,7 @@ import (
 	"mycoverif/mesh"
 	"mycoverif/node"
 	"mycoverif/simnet"
+	"mycoverif/simsync"
 )
 
 // helloAge returns how long ago a hello frame was signed by its origin.
@@ -59,6 +62,35 @@ func run(e *core.Env) {
 	}
 	ms := mesh.Build(e, mesh.Options{MinNodes: nNodes, MaxNodes: nNodes, Kinds: []string{"line"}, TwoByteLabels: true})
 	parser := frame.NewFrameBuilder()
+	// A router handles frames with one worker per CPU. In half of the runs the workers of
+	// one router may overtake each other: at the lock boundaries of router/ and state/
+	// (import-path overlay sync -> simsync) a seeded coin hands the processor to another
+	// runnable goroutine.
+	if every := []int{0, 0, 2, 3, 5}[tp.Intn(5)]; every > 0 {
+		ys := tp.Uint64() | 1
+		var ymu sync.Mutex
+		switches := 0
+		simsync.Blocking = true
+		simsync.Yield = func(op string) {
+			ymu.Lock()
+			ys += 0x9e3779b97f4a7c15
+			z := ys
+			z = (z ^ (z >> 30)) * 0xbf58476d1ce4e5b9
+			z = (z ^ (z >> 27)) * 0x94d049bb133111eb
+			z ^= z >> 31
+			ymu.Unlock()
+			if z%uint64(every) == 0 {
+				switches++
+				runtime.Gosched()
+			}
+		}
+		e.Cleanup(func() {
+			simsync.Yield = nil
+			simsync.Blocking = false
+			e.ProbeN("lock_boundary_task_switches", switches)
+		})
+		e.Fault("task_switch")
+	}
 	A, B := ms.Nodes[0], ms.Nodes[nNodes-1]
 	ai, bi := 0, nNodes-1
 	if A.IP.Compare(B.IP) < 0 {
@@ -171,6 +203,12 @@ func run(e *core.Env) {
 					sub = "both-initiated"
 				}
 			}
+			for _, h := range history {
+				if len(h) > 15 && h[:15] == "deliver-at-once" {
+					// two hello frames were handled by two workers of one router at the same time
+					sub = "hello-frames-handled-at-once"
+				}
+			}
 			if overtaken {
 				// A router sent its hello although its session had been set up (as the server
 				// of the peer's request) between its decision and the send.
@@ -202,6 +240,60 @@ func run(e *core.Env) {
 			}
 		}
 		return
+	}
+
+	// Focused opening in a fifth of the runs: both routers start a setup; the request of the
+	// router with the lower address is served by the other one; then that router's request
+	// and its response reach the lower one in the same instant, in either order.
+	if tp.Chance(1, 5) {
+		lo, hi := A, B
+		if B.IP.Compare(A.IP) < 0 {
+			lo, hi = B, A
+		}
+		sendHello(lo, hi, "lo")
+		sendHello(hi, lo, "hi")
+		history = append(history, "both-initiated")
+		var toHi, toLo []*simnet.Packet
+		for _, p := range pump() {
+			if p.To.Local == hi || nNodes == 3 && p.From.Local == lo {
+				toHi = append(toHi, p)
+			}
+		}
+		for _, p := range toHi {
+			noteDelivery(p)
+			ms.Net.Deliver(p)
+		}
+		for guard := 0; guard < 4; guard++ { // (relayed in a line of three)
+			toLo = toLo[:0]
+			for _, p := range pump() {
+				if p.To.Local == lo {
+					toLo = append(toLo, p)
+				} else {
+					noteDelivery(p)
+					ms.Net.Deliver(p)
+				}
+			}
+			if len(toLo) >= 2 {
+				break
+			}
+		}
+		if len(toLo) >= 2 {
+			if tp.Chance(1, 2) {
+				toLo[0], toLo[1] = toLo[1], toLo[0]
+			}
+			for _, p := range toLo[:2] {
+				_, fu := isHello(p, parser)
+				history = append(history, fmt.Sprintf("deliver-at-once(%s->%s resp=%v)", p.From.Local.Name, p.To.Local.Name, fu))
+				noteDelivery(p)
+				ms.Net.Remove(p)
+			}
+			toLo[0].NoDelay, toLo[1].NoDelay = true, true // the same instant, no fake time in between
+			ms.Net.DeliverRaw(toLo[0])
+			ms.Net.DeliverRaw(toLo[1])
+			simnet.Wait()
+			e.Probe("request_and_response_of_the_peer_handled_at_once")
+			e.Nontrivial()
+		}
 	}
 
 	steps := 4 + tp.Intn(24)
@@ -243,6 +335,19 @@ func run(e *core.Env) {
 		}
 		for range hello {
 			opts = append(opts, "deliver", "deliver", "drop", "dup")
+		}
+		// two hello frames for one router that arrive in the same instant are handled by two of
+		// its frame workers at the same time
+		var pairAt [][2]*simnet.Packet
+		for i, p := range hello {
+			for _, q := range hello[i+1:] {
+				if p.To.Local == q.To.Local {
+					pairAt = append(pairAt, [2]*simnet.Packet{p, q})
+				}
+			}
+		}
+		if len(pairAt) > 0 {
+			opts = append(opts, "deliver2", "deliver2", "deliver2")
 		}
 		switch op := opts[tp.Intn(len(opts))]; op {
 		case "A":
@@ -320,6 +425,24 @@ func run(e *core.Env) {
 			history = append(history, fmt.Sprintf("deliver(%s->%s resp=%v%s)", p.From.Local.Name, p.To.Local.Name, fu, p.Tag))
 			noteDelivery(p)
 			ms.Net.Deliver(p)
+		case "deliver2":
+			pr := pairAt[tp.Intn(len(pairAt))]
+			if tp.Chance(1, 2) {
+				pr[0], pr[1] = pr[1], pr[0]
+			}
+			for _, p := range pr {
+				_, fu := isHello(p, parser)
+				history = append(history, fmt.Sprintf("deliver-at-once(%s->%s resp=%v%s)", p.From.Local.Name, p.To.Local.Name, fu, p.Tag))
+				noteDelivery(p)
+			}
+			ms.Net.Remove(pr[0])
+			ms.Net.Remove(pr[1])
+			pr[0].NoDelay, pr[1].NoDelay = true, true // the same instant, no fake time in between
+			ms.Net.DeliverRaw(pr[0])
+			ms.Net.DeliverRaw(pr[1])
+			simnet.Wait()
+			e.Probe("two_hello_frames_handled_at_once")
+			e.Nontrivial()
 		case "drop":
 			p := hello[tp.Intn(len(hello))]
 			_, fu := isHello(p, parser)
